@@ -32,6 +32,8 @@ fn faucets() -> Vec<(String, Transaction)> {
         ("faucet-grandfathered".into(), grandfathered()),
         ("faucet-a/other-sigs".into(), a_sig),
         ("faucet-grandfathered/other-sigs".into(), g_sig),
+        // a faucet that also spends a coin (the genesis coin, locked by the always-true covenant): still a faucet
+        ("faucet-d(spends the genesis coin)".into(), tx_t(TxKind::Faucet, vec![melstructs::CoinID::zero_zero()], vec![out_t(77, Denom::Mel)], 0, vec![4])),
     ]
 }
 
